@@ -204,7 +204,8 @@ prop("C09", "exploration",
      "fails at that instruction and nothing is recorded; never a panic. Non-trivial = packed field with offset>0 and "
      "0<width<32, string with leading zero byte or length>=31, or an invalid case.",
      [{"test": "TestC09", "quick": {"checks": 10000, "shards": 2, "timeout": 600},
-       "thorough": {"checks": 100000, "shards": 16, "timeout": 3000}}])
+       "thorough": {"checks": 100000, "shards": 16, "timeout": 3000}},
+      {"fuzz": "FuzzC09", "thorough": {"fuzztime": "90s", "timeout": 1500}}])
 
 prop("C14", "exploration",
      "cases = (precompile 0x64 / 0x65 / 0x66) x (CALL, CALLCODE, DELEGATECALL, STATICCALL) x depth (0 = entry point straight "
@@ -220,7 +221,8 @@ prop("C14", "exploration",
      "consume exactly 5000 gas, less gas => out of gas and no host call; before Berlin no host call. Non-trivial = payload "
      ">= 128 bytes, a non-CALL kind, or an underpaid call.",
      [{"test": "TestC14", "quick": {"checks": 12000, "shards": 2, "timeout": 600},
-       "thorough": {"checks": 120000, "shards": 16, "timeout": 3000}}])
+       "thorough": {"checks": 120000, "shards": 16, "timeout": 3000}},
+      {"fuzz": "FuzzC14", "thorough": {"fuzztime": "90s", "timeout": 1500}}])
 
 prop("C12", "exploration",
      "cases = (75%) generated programs (C01 generator in a hermetic mode: no GAS / PC / code-introspection opcodes, constant "
@@ -255,7 +257,8 @@ prop("C03", "exploration",
      "instructions beyond 1e5 reads (reported as unbounded work, C20's open finding). Non-trivial = a journal opcode "
      "executed, an Artela precompile reached, or an exceptional halt.",
      [{"test": "TestC03", "savelast": True, "quick": {"checks": 5000, "shards": 4, "timeout": 900},
-       "thorough": {"checks": 50000, "shards": 16, "timeout": 3000}}])
+       "thorough": {"checks": 50000, "shards": 16, "timeout": 3000}},
+      {"fuzz": "FuzzC03", "thorough": {"fuzztime": "120s", "timeout": 1500}}])
 
 prop("C20", "exploration",
      "cases = single-instruction probes on every fork: (30%) VRJNAL over a stored string whose length word is 0..2^20 (5%: "
